@@ -105,6 +105,27 @@ NOT_APPLICABLE = [
 ]
 
 
+# rule families added in rounds 5/6 and by the fourth behaviour-preserving batch (appended to the technique strings)
+EXTRA = {
+    "C01": "periodic window bounds taken from the axis (WINDOW), analysis on the normalised program (helper inlining that keeps names, **dict/partial/generator expansion)",
+    "C03": "closure of the angular range (COVER), angle dispatch per dimension (ANGLES:dispatch), own-amplitude guard of mixed terms",
+    "C04": "residual slots identified by index (params[-k]), slice objects resolved by value",
+    "C06": "keeps-all flow rule of the pair removal (FLOW:keeps-all), generator-extracted greedy loop analysed in place",
+    "C07": "partial-bound matcher resolved to the helper it binds",
+    "C08": "top-level key agreement and reader totality (IOAGREE), one class and layout per track (IOAGREE:one-class), restore of unpickled records (PICKLE:restore), writer specialised per emptiness of the collection",
+    "C09": "slice stop used as an index (BOUNDS), removal that keeps indices valid (REMOVE), optional dimension of empty collections (EMPTY)",
+    "C10": "stale parallel array after a deletion (PAIR:stale), tie-break attribute, value-based RANDOM, self-alias iteration (ALIAS:iterates-argument)",
+    "C11": "function specialisation per value of the in-place flag (both settings analysed as separate functions)",
+    "C13": "index-loop normal form (N6), closure of the quadrature range (COVER), component-wise unit vector (UNITVEC), closed-form volume (INTEGRAL)",
+    "C14": "NaN walk of the width setter, PARMAP and every-frame must-pass-through composed in",
+    "C15": "writable restored record (PICKLE), module-level state in PURE, arms that return their result directly",
+    "C16": "axis-permutation invariance (PERMINV), smoother input (SMOOTHIN), fold threshold of hand-written frequencies, path-sensitive PASS over every return path, STATELESS",
+    "C17": "STATELESS with alias tracking, RAWDATA, CONNECT and dedup METRIC composed in",
+    "C19": "grid-family contract facts, module-level literal tables, STATELESS with alias tracking, unmodified constructor arguments",
+    "C20": "self-alias iteration (ALIAS:iterates-argument), size statistics over the members' own properties with multi-definition selections (STAT)",
+}
+
+
 def main():
     checks = []
     for pid, d in CHECKS.items():
@@ -119,7 +140,7 @@ def main():
             "engine": "dropstat",
             "level_claimed": {"category": "other", "text": d["text"], "design_ref": d["ref"]},
             "level_note": d["note"],
-            "technique": d["technique"],
+            "technique": d["technique"] + ("; " + EXTRA[pid] if pid in EXTRA else ""),
         })
     na = list(NOT_APPLICABLE)
     claimed = {c["property_id"] for c in checks}
